@@ -178,6 +178,7 @@ SENTENCES = [
     "y ~ f ( x , ' a ' )",
     "y ~ I ( a < b == c ) + g ( a == b != c , k = a + b * c )", "y ~ I ( a >= b < c <= d )", "y ~ f ( a + 1 > b == c - 2 )", "y ~ { a - b - c } + { a / b * c }",
     "y ~ f ( a ** b ** c , - a ** b ) : g ( a * b : c )",
+    "y [ '' ] ~ a", 'y [ "" ] ~ a + f ( b , \'\' )', "y [ ' ' ] ~ a", "y [ 's' ] ~ f ( a , k = '' ) + f ( a , k = 's' )",
 ]
 # chains around a multi-term base: associativity of ** and its precedence against : * / + are only observable here
 for _base in ("( a + b + c )", "( a + b + c + d )"):
@@ -249,8 +250,23 @@ def impl_model(formula, add_intercept=True):
 
 
 def model_key(d):
-    resp = d.response.term.name if d.response is not None else None
-    return (resp, tuple(str(t.name) for t in d.common_terms), tuple(str(t.name) for t in d.group_terms))
+    """Names of the response, the common and the group terms; a variable written v[level] also shows its level."""
+
+    def refs(term):
+        out = []
+        for part in (getattr(term, "components", None), getattr(getattr(term, "expr", None), "components", None), getattr(getattr(term, "factor", None), "components", None)):
+            for c in part or []:
+                r = getattr(c, "reference", None)
+                if r is not None:
+                    out.append((str(getattr(c, "name", "")), repr(r)))
+        return tuple(out)
+
+    def show(term):
+        r = refs(term)
+        return (str(term.name), r) if r else str(term.name)
+
+    resp = show(d.response.term) if d.response is not None else None
+    return (resp, tuple(show(t) for t in d.common_terms), tuple(show(t) for t in d.group_terms))
 
 
 def md_key(formula):
@@ -407,6 +423,35 @@ def check_case(case, acc):
                     problems.append(("whitespace", f"{s!r} -> {key} but {v!r} -> {kv}"))
             except Exception as e:
                 problems.append(("whitespace", f"{s!r} accepted but {v!r} raised {type(e).__name__}"))
+    # a string literal is never ignored: another literal in its place (the empty one included) gives another model
+    if len(toks) <= 12 and not any(t[0] == "-" for t in toks):  # (a removed term may legitimately differ without trace)
+        inside = set()
+
+        def mark(n):
+            if n[0] in ("call", "sub"):
+                inside.update(range(n[-1][0], n[-1][1]))
+            for ch in n[1:-1]:
+                if isinstance(ch, tuple):
+                    mark(ch)
+                elif isinstance(ch, list):
+                    for c2 in ch:
+                        mark(c2)
+
+        mark(G.parse(toks))
+        for j, t in enumerate(toks):
+            if t[0] != "STR" or j not in inside:
+                continue
+            for other in ("''", "'zz'"):
+                if other == t[1]:
+                    continue
+                v = " ".join(other if i == j else u[1] for i, u in enumerate(toks))
+                acc.calls += 1
+                try:
+                    kv = md_key(v)
+                except Exception:
+                    continue
+                if kv == key:
+                    problems.append(("literal-not-ignored", f"{s!r} and {v!r} give the same model {key}"))
     # interpretation is a function of the text alone: building a design from the same text in between changes nothing
     built = build_on_frame(s)
     acc.calls += 2
